@@ -383,10 +383,24 @@ def r6(ctx, R="C13-R6"):
         miss = sorted(tx - d)
         ctx.inst(R, "retx-covers-transmit", not miss, site, f"transmit states {sorted(tx)} are all retransmit candidates" if not miss else
                  f"segment_all transmits in {miss} but check_retx never retransmits there: a segment or FIN lost in that state is never resent nor timed out; the peer waits forever")
+    if data:
+        # the converse: a state that check_retx rewinds for retransmission is one segment_all transmits in - a rewind that is never
+        # followed by a re-emission (CLOSING with its own FIN lost) parks both ends for ever
+        d = max(data, key=len)
+        never = sorted(d - tx)
+        ctx.inst(R, "transmit-covers-retx", not never, ctx.w.bodies["turmoil_net::kernel::tcp::segment_all"].span, f"every retransmit candidate state {sorted(d)} is transmitted in" if not never else
+                 f"check_retx rewinds snd_nxt in {never} but segment_all never transmits there: a FIN lost in that state is never resent - the socket stays in it and its peer in FIN_WAIT2, "
+                 "both table entries, bindings and index entries leak")
     okh = any({"SynSent", "SynReceived"} <= vs for vs in hs)
     ctx.inst(R, "retx-covers-handshake", okh, site, "both handshake states are retransmit candidates" if okh else
              "check_retx no longer covers SynSent and SynReceived")
-    ctx.floor(R, 2)
+    # the shim never leaks a handle: std::mem::forget / ManuallyDrop on a socket half keeps its Arc<TcpStream> alive for ever - the stream is
+    # never closed, no FIN goes out and neither end's entries are reclaimed
+    leaks = [(b.id, t["s"]) for b in ctx.w.bodies.values() if b.crate == "turmoil_net" and "::shim::" in b.id
+             for bb, t in b.calls(re.compile(r"^std::mem::forget$|ManuallyDrop::new$|^std::boxed::Box::leak$|Arc::into_raw$|Arc::increment_strong_count$"))]
+    ctx.inst(R, "shim:no-leaked-handles", not leaks, leaks[0][1] if leaks else "", "no socket handle of the shim is forgotten" if not leaks else
+             f"`{leaks[0][0]}` forgets a value instead of dropping it: the half's reference to the stream is never released, Kernel::close is never called and the connection is never reclaimed")
+    ctx.floor(R, 3)
 
 
 def r7(ctx):
